@@ -6,5 +6,7 @@ import ThriftVerif.Facts.ExpectGen
 #print axioms ThriftVerif.Properties.C19.wrap_unwrap_void
 #print axioms ThriftVerif.Properties.C19.wrap_unwrap_exc
 #print axioms ThriftVerif.Properties.C19.wrap_rejects_undeclared
+#print axioms ThriftVerif.Properties.C19.unwrap_inverts_wrap
+#print axioms ThriftVerif.Properties.C19.wrap_injective
 #print axioms ThriftVerif.Properties.C19.wrap_nil_return
 #print axioms ThriftVerif.Facts.ExpectGen.reservedIdentifiers_ok
